@@ -91,7 +91,10 @@ HowDenied(e, it) ==
 DiagCollect ==
     LET i == CHOOSE i \in Offending(Ev) : TRUE IN
     "DenyRespected:" \o Ev.factory \o ":" \o Ev.items[i].t \o ":" \o HowDenied(Ev, Ev.items[i]) \o
-    (IF Ev.items[i].t = "file" /\ Len(Ev.items[i].w) > 1 THEN ":blank-in-path" ELSE "")
+    (CASE Ev.items[i].cls = "blank" -> ":blank-in-path"
+       [] Ev.items[i].cls = "meta"  -> ":regex-chars"
+       [] Ev.items[i].cls = "deep"  -> ":deep-path-argument"
+       [] OTHER -> "")
 
 (* ------------------------------------------------------------------------ *)
 Accepts ==
